@@ -422,6 +422,8 @@ def run_family(ctx, prop):
     if os.path.isdir(cdir):
         for fn in sorted(os.listdir(cdir)):
             c = json.load(open(os.path.join(cdir, fn)))
+            if 'app_scenario' in c:
+                continue            # application-session regressions: run by app_sessions.run_family_app
             cases.append((cfg_from_json(c['cfg']), script_from_json(c['script']), c.get('seed', 0), 'corpus:' + fn))
     foci = FOCUS[prop]
     for i in range(n):
